@@ -169,6 +169,19 @@ def run(prop, tier, seed, replay, clauses, n_quick, n_thorough, rule, gen_kw=Non
                 else:
                     kept.append(f)
             fails = kept
+        if "F-D3" in known:
+            # D3: the wildcard entry of a NESTED member's row is printed with the family's key instead of the key seen through the member's
+            # substitution; when the stray projection happens to be well-formed the program compiles and the member is selected through
+            # the wrong projection (its block applies but the type gets no impl, or the items of another member)
+            d3 = {bi for bi, (fi_, mi_, m_) in enumerate(plan.blocks()) if m_.theta and any(r_ is None for r_ in m_.row)}
+            kept = []
+            for f in fails:
+                blocks = set(f.get("applicable_blocks", [])) | ({f["block"]} if "block" in f else set())
+                if blocks & d3:
+                    rep.known("F-D3")
+                else:
+                    kept.append(f)
+            fails = kept
         for f in fails[:2]:
             rep.oracle_failures.append({**f, "invocation": plan.invocation_text(), "macro_program": plan.macro_program(),
                                         "shadow_program": plan.shadow_program()})
